@@ -143,7 +143,26 @@ def gen_name(rng, meta_rate=0.2):
     return rng.choice(META) if rng.random() < meta_rate else rng.choice(PLAIN)
 
 
+WIDE_RATE = 0.15
+FAMILIES = [b"x_%d", b"y%d", b"k%d", b"ab%d", b"A%d", b"a.b_%d"]
+
+
+def gen_wide_record(rng, meta_rate=0.2, families=None):
+    """13-40 fields, most of them from a few numbered families (x_7, y12, ...) in shuffled order: several fields tie under every
+    verb-internal ordering/grouping (same regex, same family), at sizes where an unstable sort or a hash order shows (> 12)"""
+    n = rng.randint(13, 40)
+    fams = families or rng.sample(FAMILIES, rng.randint(1, 3))
+    names = set()
+    while len(names) < n:
+        names.add(gen_name(rng, meta_rate) if rng.random() < 0.15 else rng.choice(fams) % rng.randrange(0, 60))
+    names = sorted(names)
+    rng.shuffle(names)
+    return [(k, rng.choice(VALUES)) for k in names]
+
+
 def gen_record(rng, meta_rate=0.2, maxw=6):
+    if rng.random() < WIDE_RATE:
+        return gen_wide_record(rng, meta_rate)
     n = rng.choice([1, 1, 2, 3, 3, 4, 5, maxw, rng.randint(1, 12)])
     r, seen = [], set()
     for _ in range(n):
@@ -176,6 +195,8 @@ def gen_fields(rng, recs, lo=1, hi=4, meta_rate=0.2):
     """field list: present, absent, overlapping, repeated"""
     present = [k for r in recs for k, _ in r]
     out = []
+    if 3 <= hi <= 6 and any(len(r) > 12 for r in recs) and rng.random() < 0.6:
+        hi = rng.randint(13, 30)          # long lists on wide records: more than 12 named fields take part
     for _ in range(rng.randint(lo, hi)):
         x = rng.random()
         if x < 0.6 and present:
@@ -780,23 +801,54 @@ def gen_regex(rng, names, want_group=False):
     return RX("seq", parts), grouped
 
 
+def cut_r_oracle(specs, comp, argo, recs, out):
+    """cut -r only selects (and with -o groups by the regex position): the chosen fields keep name and value, fields selected by the
+    same regex keep their record order.  Python's re on the same pattern text (the generated subset reads the same)."""
+    import re
+    pats = [re.compile(rx.text().encode("latin1"), re.I if ci else 0) for ci, rx, _ in specs]
+    if len(out) != len(recs):
+        return ("cut-r-count", "cut -r changed the number of records")
+    for r, o in zip(recs, out):
+        idx = lambda k: next((i for i, p in enumerate(pats) if p.search(k)), None)
+        kept = [(kv, idx(kv[0])) for kv in r if (idx(kv[0]) is not None) != comp]
+        if argo and not comp:
+            want = [kv for i in range(len(pats)) for kv, j in kept if j == i]
+        else:
+            want = [kv for kv, _ in kept]
+        if o != want:
+            if sorted(o) == sorted(want):
+                return ("cut-r-field-order", "cut -r%s kept the right fields but not in record order within a regex group" % (" -o" if argo else ""))
+            return ("cut-r-selection", "cut -r did not select exactly the fields matching the regexes")
+    return None
+
+
 def regex_cases(ctx):
     """cut -r [-x] [-o] and rename -r / -g against coq/C12/Regex.v"""
     rng = ctx.rng
-    n = 150 if ctx.tier == "quick" else 1500
+    n = 200 if ctx.tier == "quick" else 2000
     jobs = []
     for i in range(n):
         recs = []
+        wide = rng.random() < 0.4
         for _ in range(rng.choice([1, 2, 3])):
-            ks = rng.sample(ASCII_NAMES, rng.randint(1, 6))
-            recs.append([(k, rng.choice(VALUES)) for k in ks])
+            if wide:
+                recs.append(gen_wide_record(rng, 0.0, families=rng.sample(FAMILIES[:5], rng.randint(2, 3))))
+                recs[-1] = [(k, v) for k, v in recs[-1] if all(c < 128 for c in k) and b"\\" not in k]
+            else:
+                ks = rng.sample(ASCII_NAMES, rng.randint(1, 6))
+                recs.append([(k, rng.choice(VALUES)) for k in ks])
         names = [k for r in recs for k, _ in r]
         if i % 2 == 0:
             specs = []
             for _ in range(rng.randint(1, 3)):
-                rx, _g = gen_regex(rng, names)
+                if wide and rng.random() < 0.7:      # a regex that many fields of one family match: ties under -o
+                    stem = rng.choice(names).rstrip(b"0123456789")[:rng.randint(1, 2)] or b"x"
+                    rx = RX("seq", ([RX("bol")] if rng.random() < 0.6 else []) + [RX("chr", c) for c in stem]) if rng.random() < 0.7 else \
+                        RX("seq", [RX("cls", False, [(0x30 + rng.randrange(10), 0x39)]), RX("eol")])
+                else:
+                    rx, _g = gen_regex(rng, names)
                 specs.append((rng.random() < 0.2, rx, []))
-            comp, argo = rng.random() < 0.35, rng.random() < 0.35
+            comp, argo = rng.random() < 0.35, rng.random() < (0.7 if wide else 0.35)
             words = ['"%s"%s' % (rx.text(), "i") if ci else rx.text() for ci, rx, _ in specs]
             args = ["cut", "-r"] + (["-x"] if comp else []) + (["-o"] if argo else []) + ["-f", ",".join(words)]
             jobs.append((1, specs, (comp, argo), args, recs))
@@ -820,14 +872,19 @@ def regex_cases(ctx):
             args = ["rename", "-g" if gsub else "-r", ",".join(words)]
             jobs.append((2, specs, (gsub, False), args, recs))
     outs = verbrun(ctx, [(j[3], j[4]) for j in jobs])
-    terms, meta = [], []
+    terms, meta, flagged_r = [], [], set()
     for j, (st, out, err) in zip(jobs, outs):
         code, specs, fl, args, recs = j
-        ctx.dist("regex:" + args[0] + " " + args[1])
+        ctx.dist("regex:" + args[0] + " " + args[1] + (" (wide records)" if any(len(r) > 12 for r in recs) else ""))
         ctx.count(("regex", repr(args), repr(recs)))
         if st != 0:
             violation_once(ctx, {"broken": "regex form: verb failed", "args": args, "input": repr(recs), "observed": err.decode("latin1")[-300:], "class": "regex-mlr-failed"})
             continue
+        if code == 1:
+            o = cut_r_oracle(specs, fl[0], fl[1], recs, out)
+            if o:
+                flagged_r.add(id(j))
+                violation_once(ctx, {"broken": "property oracle: " + o[1], "args": args, "input": repr(recs), "observed": repr(out), "expected": o[1], "class": o[0]})
         if code == 1 and 0 < sum(len(r) for r in out) < sum(len(r) for r in recs):
             ctx.dist("regex:cut selects a proper subset")
         if code == 2 and out != recs:
@@ -842,7 +899,7 @@ def regex_cases(ctx):
     if err:
         ctx.violation({"broken": "correspondence-evaluation (regex)", "detail": err[-2000:]}, found_input=False)
         return
-    for i in bad[:3]:
+    for i in [i for i in bad if id(meta[i][0]) not in flagged_r][:3]:
         j, out = meta[i]
         ctx.violation({"broken": "correspondence C12.Regex.chk_r (regex model and implementation differ)", "args": j[3], "input": repr(j[4]), "observed": repr(out)},
                       found_input=False)
@@ -884,7 +941,8 @@ def saver_bystanders(ctx):
                         bad = "a field outside -f changed, or a name changed"
                     if kind == "ssub" and not bad:
                         old, new = args[-2].encode(), args[-1].encode()
-                        if any(w != v.replace(old, new, 1) for (k, v), (_, w) in zip(r, q) if k in S):
+                        num = lambda v: v[:1].isdigit() or v[:1] in (b"-", b"+", b".")   # numbers are not strings: left alone
+                        if any(not num(v) and w != v.replace(old, new, 1) for (k, v), (_, w) in zip(r, q) if k in S):
                             bad = "ssub is not the replacement of the first occurrence"
                     if kind == "case-v" and not bad:
                         numeric = lambda v: v[:1].isdigit() or v[:1] in (b"-", b"+", b".")   # case leaves numbers alone
